@@ -86,7 +86,13 @@ def tokens_to_ast(
                 stack_operator(token, token)
             elif token.token in CONTEXT_CLOSERS:
                 starting_token = CONTEXT_CLOSERS[token.token]
-                while operator_stack and operator_stack[-1].token != starting_token:
+                # Apply all operators stacked since the innermost open context
+                # marker; that marker must then be the one matching this closer
+                # (context markers are never operated upon).
+                while (
+                    operator_stack
+                    and operator_stack[-1].token.kind is not Token.Kind.CONTEXT
+                ):
                     output_queue = operate(operator_stack.pop(), output_queue)
                 if operator_stack and operator_stack[-1].token == starting_token:
                     operator_stack.pop()
